@@ -4,6 +4,8 @@
  *           (mutex o1, cond notfull o2, cond notempty o3; signal)
  *   MODE 1: gate: A waiters wait for a flag; opener sets it and broadcasts (B rounds)
  *   MODE 2: turnstile: A threads take turns in order, broadcast after each turn (B laps)
+ *   MODE 3: tokens: A takers wait for a token, B givers add C tokens each and signal AFTER unlocking
+ *           (legal: the signal then races with other signals and with takers entering wait)
  * output: RESULT ok|fail <detail>
  */
 #include "schedctl.h"
@@ -81,6 +83,30 @@ static void * turn_taker(void * a) {
   return 0;
 }
 
+/* ---- mode 3 ---- */
+static volatile long tokens, taken; static long take_quota[32];
+static void * taker(void * a) {
+  long id = (long)a; ctl_name_thread((int)id);
+  for (long i = 0; i < take_quota[id]; i++) {
+    myth_mutex_lock(&mx); enter();
+    while (tokens == 0) { leave(); myth_cond_wait(&c1, &mx); enter(); }
+    tokens--; taken++;
+    leave(); myth_mutex_unlock(&mx);
+  }
+  return 0;
+}
+static void * giver(void * a) {
+  long id = (long)a; ctl_name_thread((int)id);
+  for (int i = 0; i < C; i++) {
+    myth_mutex_lock(&mx); enter();
+    tokens++;
+    leave(); myth_mutex_unlock(&mx);
+    myth_cond_signal(&c1);                 /* outside the mutex */
+    if (mix(pseed + id * 5 + i) % 3 == 0) myth_yield();
+  }
+  return 0;
+}
+
 int main(int argc, char ** argv) {
   int W = argc > 1 ? atoi(argv[1]) : 2; int mode = argc > 2 ? atoi(argv[2]) : 0;
   A = argc > 3 ? atoi(argv[3]) : 2; B = argc > 4 ? atoi(argv[4]) : 2; C = argc > 5 ? atoi(argv[5]) : 1;
@@ -102,6 +128,11 @@ int main(int argc, char ** argv) {
   } else if (mode == 1) {
     for (long i = 0; i < A; i++) th[n++] = myth_create(gate_waiter, (void *)(i + 1));
     th[n++] = myth_create(gate_opener, (void *)(long)(A + 1));
+  } else if (mode == 3) {
+    long total = (long)B * C;
+    for (int j = 0; j < A; j++) take_quota[j + 1] = total / A + (j < total % A ? 1 : 0);
+    for (long i = 0; i < A; i++) th[n++] = myth_create(taker, (void *)(i + 1));
+    for (long j = 0; j < B; j++) th[n++] = myth_create(giver, (void *)(long)(A + 1 + j));
   } else {
     for (long i = 0; i < A; i++) th[n++] = myth_create(turn_taker, (void *)(i + 1));
   }
@@ -112,6 +143,8 @@ int main(int argc, char ** argv) {
       FAIL("bounded buffer: produced %ld consumed %ld sum_in %ld sum_out %ld left %d", produced, consumed, sum_in, sum_out, nbuf);
   } else if (mode == 1) {
     if (passed != (long)A * B) FAIL("gate: %ld passages, expected %d", passed, A * B);
+  } else if (mode == 3) {
+    if (taken != (long)B * C || tokens != 0) FAIL("tokens: taken %ld left %ld expected %d", taken, tokens, B * C);
   } else {
     if (turn != (long)A * B) FAIL("turnstile: turn %ld expected %d", turn, A * B);
   }
